@@ -6,6 +6,7 @@ from lib import c04pull, queuefam, twostores
 def _extra(ctx, info, rng, fam, hs):
     cov = c04pull.run(ctx, info, rng, fam, hs) or {}
     cov.update(twostores.run(ctx, info))
+    cov.update(twostores.run_relet(ctx, info))
     return cov
 
 
